@@ -1,18 +1,29 @@
-(* C16 driver: scenario = <package> <ntests> { <group> <name> <file> <line> <ignored> <nstmts> { :p <text> | :f <file> <line> <msg> | :x <file> <line> <msg> } }
-   observation = <nfiles> { <filename> <content> }.   Extra form (parser differential, no implementation involved): :xml <bytes> -> 1/0 *)
+(* C16 driver: scenario = <ntests> { <nops> { op } <group> <name> <file> <line> <ignored> <nstmts> { :p <text> | :f <file> <line> <msg> | :x <file> <line> <msg> } } <npost> { op }
+   op = :k <package> (setPackageName) | :n <group> (createFileName, the answer is observed); the ops in front of a test are made just before its
+   printCurrentTestStarted callback, the trailing ones after runAllTests returned.
+   observation = <nfiles> { <filename> <content> } <nnames> { <answer of a createFileName call> }.
+   Extra form (parser differential, no implementation involved): :xml <bytes> -> 1/0 *)
 let stmt c =
   match next c with
   | ":p" -> SPrint (bytes_tok (next c))
   | ":f" -> let f = bytes_tok (next c) in let l = n_tok (next c) in let m = bytes_tok (next c) in SFail (f, l, m)
   | ":x" -> let f = bytes_tok (next c) in let l = n_tok (next c) in let m = bytes_tok (next c) in SFailStop (f, l, m)
   | t -> raise (Bad ("stmt tag " ^ t))
+let op c =
+  match next c with
+  | ":k" -> OSetPkg (bytes_tok (next c))
+  | ":n" -> OFileName (bytes_tok (next c))
+  | t -> raise (Bad ("op tag " ^ t))
 let test c =
+  let ops = counted c op in
   let g = bytes_tok (next c) in let n = bytes_tok (next c) in let f = bytes_tok (next c) in let l = n_tok (next c) in
   let ign = bool_tok (next c) in let body = counted c stmt in
-  { t_group = g; t_name = n; t_file = f; t_line = l; t_ignored = ign; t_body = body }
-let scenario c = let pkg = bytes_tok (next c) in let ts = counted c test in { s_pkg = pkg; s_tests = ts }
-let pobs (o : (n list * n list) list) =
-  String.concat " " (Printf.sprintf "%x" (List.length o) :: List.concat_map (fun (f, x) -> [pbytes f; pbytes x]) o)
+  (ops, { t_group = g; t_name = n; t_file = f; t_line = l; t_ignored = ign; t_body = body })
+let scenario c = let ts = counted c test in let post = counted c op in
+  if not (at_end c) then raise (Bad "trailing tokens") else { s_tests = ts; s_post = post }
+let pobs ((o, names) : (n list * n list) list * n list list) =
+  String.concat " " ((Printf.sprintf "%x" (List.length o) :: List.concat_map (fun (f, x) -> [pbytes f; pbytes x]) o)
+                     @ (Printf.sprintf "%x" (List.length names) :: List.map pbytes names))
 let run_line ts =
   match ts with
   | ":xml" :: b :: _ -> pbool (xml_accepts (bytes_tok b))
@@ -22,4 +33,5 @@ let spec_line ts os =
   let c = { rest = ts } in let s = scenario c in
   let oc = { rest = os } in
   let files = counted oc (fun oc -> let f = bytes_tok (next oc) in let x = bytes_tok (next oc) in (f, x)) in
-  at_end oc && spec s files
+  let names = counted oc (fun oc -> bytes_tok (next oc)) in
+  at_end oc && spec s (files, names)
